@@ -1556,6 +1556,7 @@ func (l *flabLab) clientStep() {
 	l.pacingAt = 0
 	for iter := 0; iter < 200 && !l.ended; iter++ {
 		mode := l.sph.SendMode(now)
+		l.res.Logf("  client step at %v: send mode %v", time.Duration(now), mode)
 		switch mode {
 		case ackhandler.SendAny:
 			retr := l.rq.HasData(protocol.EncryptionInitial)
@@ -1739,6 +1740,7 @@ func (l *flabLab) clientReceiveAck(ev flabEvt) {
 		return
 	}
 	l.shape.WriteString("a")
+	l.res.Logf("  client received ACK %v", ev.ranges)
 	if l.sc.PeerPing {
 		l.acks.pending = true
 		l.acks.largest = protocol.PacketNumber(l.peerPkts)
@@ -1763,6 +1765,7 @@ func (l *flabLab) run() {
 		return
 	}
 	cleanBound := 60
+	lastDgrams, lastEvents := -1, -1
 	for iter := 0; iter < 4000 && !l.ended && !l.done; iter++ {
 		// earliest thing to wait for
 		var next time.Time
@@ -1789,7 +1792,12 @@ func (l *flabLab) run() {
 		}
 		if d := next.Sub(nowT); d > 0 {
 			time.Sleep(d)
+		} else if l.nDgrams == lastDgrams && len(l.events) == lastEvents {
+			// a deadline that is due but changes nothing (the pacer's budget is a rounding
+			// error short at its own deadline): real time would move on
+			time.Sleep(time.Millisecond)
 		}
+		lastDgrams, lastEvents = l.nDgrams, len(l.events)
 		nowT = time.Now()
 		// deliver what is due, in order
 		for {
